@@ -10,14 +10,14 @@ CLAIMED = {
          "Whole library on a simulated runtime: a receiving socket of each fair-queue type with 1..4 scripted senders; every run draws its own scheduler policy, pipe capacities, chunking, yields, delivery delays, late joins, closes, mid-message cuts and resets. Also real sockets as senders, the fair-queue component simulation, and peers that rejoin under their identity. Oracle at quiescence: recv results attributed by tag equal, in order and frame by frame, the complete messages an independent RFC-23 decoder finds on each connection's tap. One open known finding (identity collision on overlapping rejoin) is listed in known_findings.json with its replay. Sampling, not proof.",
          "Trusts the simulated transport to behave like an ordered reliable byte stream, the independent reference codec, and that task interleavings at await points plus reactor events at mutex boundaries cover the relevant schedules.", "5/C05, B1"),
  "C06": ("exploration", "deterministic simulation of the real fair queue with scripted streams: seeded search over interleavings of arrivals, wakes, inserts, closes and receiver polls, including events inside the window where poll_next holds no lock; lost-wake-up and bounded-overtaking oracles at quiescence",
-         "L1: the private fair queue driven through the FairQueueProbe hook; foreign events land between polls, inside stream polls and at every lock/unlock of the queue's mutex. Oracles: at quiescence the receiver may not be parked un-woken while an inserted stream holds an item; with deep queues no ready peer waits for more than 2n+2 (+1 per injected spurious wake) foreign deliveries. L2: whole library, nobody parked in recv while a complete message is undelivered. Sampling, not proof.",
+         "L1: the private fair queue driven through the FairQueueProbe hook; foreign events land between polls, inside stream polls and at every lock/unlock of the queue's mutex. Oracles: at quiescence the receiver may not be parked un-woken while an inserted stream holds an item; with deep queues no ready peer waits for more than 2n+2 (+1 per injected spurious wake) foreign deliveries. Streams and transports may also run out of cooperative budget inside a poll (Pending + immediate or deferred self-wake for the rest of the poll, as tokio's): the poll must return to the executor, not spin (clauses spins_when_stream_yields / spins_when_transport_yields; found and repaired F21). L2: whole library, nobody parked in recv while a complete message is undelivered. Sampling, not proof.",
          "Trusts that every access to the queue's shared state goes through its parking_lot mutex (so lock boundaries are the only interleaving points), and the waker contract modelled by the scripted streams (fired at most once per registration).", "5/C06, 3.9, B2, B3"),
  "C07": ("exploration", "deterministic simulation: REQ and REP sockets against scripted peers and each other under seeded segmentation and scheduling; envelope algebra checked on wire taps and at the API",
          "REP fed requests with 0..3 routing frames, delimiter and 1..4 payload frames from the boundary grid (empty frames inside), plus single-frame and delimiter-last forms; REQ against a scripted REP; REQ against REP. Oracles: REQ wire = delimiter + payload, REQ recv = reply minus the delimiter, REP recv = frames after the first delimiter, REP wire = saved prefix + delimiter + reply, never a zero-frame message.",
          "Payload space sampled over a length grid; requests with no delimiter at all are outside the statement.", "5/C07"),
  "C08": ("exploration", "deterministic simulation: every call sequence over {send, recv} up to length 6 on REQ and on REP compared call by call with a reference state machine, and seeded schedules of 1..4 concurrent clients with replies attributed by tag and by connection tap",
          "All 126 sequences are enumerated (undisturbed, then under random transport and schedules); an illegal call must fail, hand the message back intact, leave every tap unchanged and not disturb the next legal call. Concurrency: real and scripted REQ clients against one REP; each reply must appear on the connection its request arrived on.",
-         "Sequence space exhaustive to length 6; schedules sampled. REP recv while a request is held is not judged.", "5/C08"),
+         "Sequence space exhaustive to length 6; schedules sampled. REP recv while a request is held is not judged. Beyond the undisturbed enumeration REP partners slip malformed requests into their pipelines: a rejected request must not move the lock-step state.", "5/C08"),
  "C14": ("fault_enumeration", "deterministic simulation with cancellation faults: recv futures dropped after k polls (k = 0..5) at sampled byte-arrival positions for every receiving socket type; delivery oracle of C05 plus REQ protocol-state oracle",
          "Every fair-queue socket type with up to 24 abandoned recv calls per run while tagged messages arrive under random segmentation; the concatenation of completed recvs must still be exactly-once/in-order/whole. REQ: after an abandoned recv a further send must be refused with the message intact and nothing on the wire, and the next completed recv must return the reply to the outstanding request.",
          "Cancellation = dropping the future, as select!/timeout/proxy do. Poll budgets enumerated 0..5; arrival positions sampled.", "5/C14"),
@@ -32,13 +32,13 @@ CLAIMED = {
          "Stack clause depends on documented parameters: 2 MiB run-thread stack, library built unoptimised. Allocation failure is not injected; request sizes are judged.", "5/C03, 3.10"),
  "C04": ("fault_enumeration", "deterministic simulation: full configuration grid of scripted handshakes (226800 cells) run through real accept/connect paths under seeded segmentation, compared with an independent admission predicate; plus enumeration of the 144 compatibility queries",
          "Grid = local type (9) x peer Socket-Type (12 names, unknown, missing) x version (5) x mechanism (4) x signature (3) x identity (5) x first item (3) x side (2). Observables: application message exchanged or not, monitor Accepted/AcceptFailed, connect() result, connection closed by the socket.",
-         "Thorough tier enumerates the grid completely, quick samples it. 'Known mechanism' is read as NULL/PLAIN/CURVE as the statement says.", "5/C04"),
+         "Thorough tier enumerates the grid completely, quick samples it. 'Known mechanism' is read as NULL/PLAIN/CURVE as the statement says. Stratum registration: 2..4 admissible peers per socket (identity none / empty / distinct edge shapes, accepted or dialled): one admission event each, announced resp. pairwise distinct identities, no admitted connection closed, traffic flows exactly once per peer.", "5/C04"),
  "C09": ("exploration", "deterministic simulation: ROUTER socket with 1..4 scripted peers (announced or assigned identities) under seeded schedules; labels checked against the connection a message arrived on, routed sends checked on connection taps snapshotted around every send",
          "Inbound: first frame constant per connection, equal to the announced identity, distinct across connections, remaining frames verbatim. Outbound: exactly the addressed connection gains exactly the remaining frames; unknown identity (empty, 1, 17, 256 bytes) or departed peer: Err and no tap changes.",
-         "Identities never duplicated by the generator; single-frame sends are outside the statement.", "5/C09"),
+         "Identities never duplicated by the generator; single-frame sends are outside the statement. Identity shapes include a leading zero byte, all zeros, embedded zeros, 0xff bytes and prefixes of one another; unknown targets include near misses of a connected identity.", "5/C09"),
  "C10": ("exploration", "deterministic simulation: PUSH/DEALER/REQ with 0..4 scripted peers joining at seeded times under partial writes; connection taps snapshotted at the instant send returns; strict rotation asserted over windows of stable membership taken from monitor events",
          "A successful send must have written the complete message to exactly one admitted peer by the time it returns; n consecutive sends over a stable set of n peers reach n distinct peers; with no peer the send fails, hands the message back intact and writes nothing.",
-         "Peers do not depart in this scenario; membership from Accepted events.", "5/C10, B4"),
+         "During the judged sends nobody departs; membership from Accepted events resp. completed connect calls. rr_connect stratum: the socket dials harness listeners, some appearing late, so connect() retries with back-off on the virtual clock; in one case in three a peer departs after the judged sends and, once a send has failed on it, sends must succeed and rotate strictly over the rest.", "5/C10, B4"),
  "C11": ("exploration", "deterministic simulation: every subscription history up to length 4 over 9 operations enumerated for PUB and XPUB, longer seeded histories with 1..3 subscribers; publisher probes all first frames at quiescent points; subscriber taps compared with a multiset-prefix reference model",
          "Operations: subscribe/unsubscribe x topics {'', a, ab, b} and garbage (multi-frame, bad first byte, empty). A probe must reach a subscriber exactly once iff a multiset element is a prefix of its first frame. XPUB: recv returns every subscriber message verbatim, per-connection order (interleaving check).",
          "Compared only at quiescent points; subscribers accept every write.", "5/C11, B5"),
@@ -50,7 +50,7 @@ CLAIMED = {
          "With duplicate subscribes only agreement is required.", "5/C13, B5"),
  "C15": ("exploration", "deterministic simulation: REQ clients - ROUTER | proxy() | DEALER - REP workers with a capture socket, real and scripted endpoints, seeded schedules, segmentation and select! order; verbatim/exactly-once/ordered forwarding checked on front, back and capture connection taps",
          "Every request reaches a worker exactly once as identity + delimiter + payload verbatim, every reply reaches exactly its client, the capture sink gets one copy of every forwarded message in per-client order, proxy() keeps running.",
-         "Clients/workers do not depart; pipe capacities stay above the largest message (mutual back-pressure deadlock of proxy() is flow control, outside the statement).", "5/C15"),
+         "Clients/workers do not depart; pipe capacities stay above the largest message (mutual back-pressure deadlock of proxy() is flow control, outside the statement). Second stratum proxy_dealer_world: DEALER clients pipelining delimiter-less messages (single-frame included) to DEALER echo workers.", "5/C15"),
  "C16": ("fault_enumeration", "deterministic simulation with connection faults enumerated over every byte offset of the victim's stream x {orderly close, reset, read error, write error} x 9 socket types with live bystanders, plus connect/disconnect churn; clause-keyed oracles on recv history, taps and connection release",
          "Clauses: others_affected, more_than_one_error, routed_to_failed_peer, sends_keep_failing, not_released, dead_connections_accumulate, hang, no_quiescence. Strata cut_world, cut_world_connect, rejoin_same_identity (departure and rejoin under the same identity at four timings), churn.",
          "'Released' is asserted only after the socket has been polled to quiescence after the fault; TCP half-close is not injected.", "5/C16, B7"),
@@ -58,7 +58,7 @@ CLAIMED = {
          "At close() return (resp. at quiescence after drop): no listener left and fresh connects refused, IPC socket file removed, every peer connection closed by the socket, no library-spawned task alive, close() reports an injected unlink failure.",
          "Ports and socket files are the simulator's; kernel and tokio-gated glue lines are not exercised.", "5/C17"),
  "C18": ("exploration", "deterministic simulation: seeded operation sequences over bind (tcp v4/v6/localhost port 0, fixed port, ipc, duplicate, unresolvable), unbind (bound/unknown), connect-in and message exchange, checked after every operation against a reference model of the bind set in the simulated namespaces",
-         "Return values, binds(), listener set, socket files, connectability of returned endpoints, isolation of unbind, survival of established connections.",
+         "Return values, binds(), listener set, socket files, connectability of returned endpoints, isolation of unbind, survival of established connections. unbind of an endpoint that is not bound is tried with far and near misses (wildcard-port form of a bound endpoint, next port, other host spelling, unspecified address, longer ipc path, endpoint unbound earlier).",
          "Namespaces are simulated; 'localhost' resolves to 127.0.0.1.", "5/C18"),
  "C20": ("fault_enumeration", "deterministic simulation with handshake faults enumerated over every byte offset of greeting+READY x {stop, close, garbage} x 9 bound socket types x {tcp, ipc}, 1..3 simultaneous stallers, well-behaved clients before/during/after and an established peer",
          "At quiescence every well-behaved client has been admitted and exchanged a message, established traffic continues, and the monitor has exactly one AcceptFailed per handshake that failed (none for silent stallers).",
